@@ -214,7 +214,7 @@ type pc =
 | PCleanup of shape * key
 | PCancel of key
 | PDrops of gid list * after
-| PScan of z option
+| PScan of z
 | PStreamEnter
 | PStream of (key * sub0) list
 | PStreamDrop of (key * sub0) list
@@ -350,7 +350,7 @@ val guard_live : state -> gid -> bool
 
 val expired_keys : (key * entry) list -> key list -> z -> key list
 
-val do_scan : cfg -> state -> aid -> z option -> key list -> result
+val do_scan : cfg -> state -> aid -> z -> key list -> result
 
 val instant_floor : z
 
